@@ -131,6 +131,15 @@ def step (st : St) (toks : List String) : St × List String :=
       let r := resetFlood st.cfg st.s m limit now
       ({ st with s := r.1 }, [s!"before={r.2.1} after={r.2.2}"])
     | _, _, _ => (st, ["bad-op"])
+  | ["resetr", m, limit, now] =>      -- the same request, the reply followed by the flood row it left behind
+    match m.toNat?, limit.toInt?, now.toNat? with
+    | some m, some limit, some now =>
+      let r := resetFlood st.cfg st.s m limit now
+      let row := match lookupFlood r.1.flood m with
+        | some f => s!"{f.last}:{f.free}"
+        | none => "none"
+      ({ st with s := r.1 }, [s!"before={r.2.1} after={r.2.2} row={row}"])
+    | _, _, _ => (st, ["bad-op"])
   | ["byval", k] =>
     match k.toNat? with
     | some k => (st, [match lookupKey st.s.maps k with | some id => s!"id {id}" | none => "none"])
